@@ -335,7 +335,9 @@ class Gen:
 
     def stmt(self):
         r = self.r
-        kinds = ["let", "assert", "val", "array", "aset", "snark"]
+        kinds = ["let", "assert", "val", "array", "snark"]
+        if self.depth == 0 or not self.cfg.get("no_aset_in_regions"):
+            kinds.append("aset")
         if self.depth == 0 or not self.cfg.get("set_ie_top_only"):
             kinds.append("set_ie")
         if self.depth == 0:
